@@ -8,6 +8,18 @@ func Gen(seed uint64, thorough bool) *Case {
 	c := &Case{Property: "C18", Seed: seed}
 	c.NCaches = r.Range(1, 4)
 	c.SizeLimit = []uint64{0, 200, 600, 2000, 100000}[r.Intn(5)]
+	if r.Bool(0.2) {
+		// the store's wiring: a configured total and a sort cache of any size up to it
+		c.Total = []uint64{4 << 10, 16 << 10, 64 << 10, 1 << 20}[r.Intn(4)]
+		if r.Bool(0.7) {
+			// derived: eight fraction sizes, capped; the interesting region is around the cache size itself
+			c.FracSize = c.Total * uint64([]int{5, 9, 10, 11, 12, 13, 14, 20}[r.Intn(8)]) / 100
+		} else {
+			c.FracSize = c.Total / 100
+			c.Sort = c.Total * uint64([]int{50, 80, 85, 89}[r.Intn(4)]) / 100
+		}
+		c.Pick = r.Intn(7)
+	}
 	c.PSync = []float64{0.1, 0.3, 0.6}[r.Intn(3)]
 	c.PStmt = []float64{0, 0.02, 0.1, 0.25}[r.Intn(4)]
 	ncallers := r.Range(2, 6)
